@@ -27,7 +27,7 @@ def _hull_cases(draw, tier):
     prm = draw(st.lists(gen.params(pdim), min_size=1, max_size=4))
     dirs = [[draw(st.integers(-16, 16)) / 8.0 for _ in range(d["dim"])] for _ in range(6)]
     n = draw(st.integers(2, 5 if d["kind"] == "volume" else 9))
-    return {"defn": d, "params": prm, "dirs": dirs, "n": n}
+    return {"defn": d, "params": prm, "dirs": dirs, "n": n, "moved": draw(st.sampled_from([0, 0, 0, 1, 2]))}
 
 
 def _dot(a, b):
@@ -83,6 +83,21 @@ def check_hull(case, ctx):
     ctx.nt(any(k in ("knot", "end", "start") for k in kinds_all), "on-knot-or-end")
     ctx.label("kind:" + d["kind"])
     ctx.label("unclamped", d.get("unclamped", False))
+    if case.get("moved"):
+        # a second shape: a translated copy; each of the two keeps to its own control net
+        vec = [[0.0, 0.0, 0.0, 0.0], [64.0, -32.0, 16.0, 8.0], [-0.5, 1024.0, 0.25, -256.0]][case["moved"]][:dim]
+        mv = operations.translate(obj, vec)
+        P2 = [[c + t for c, t in zip(p, vec)] for p in P]
+        mbb = mv.bbox
+        for i in range(dim):
+            ctx.check(mbb[0][i] == min(p[i] for p in P2) and mbb[1][i] == max(p[i] for p in P2), "bbox-not-control-net-extent",
+                      "bbox of a translated copy is %r but its control points span [%r, %r] on axis %d" % (mbb, min(p[i] for p in P2), max(p[i] for p in P2), i))
+        mv.delta = 0.5
+        mev = mv.evalpts
+        for e in mev:
+            ctx.check(all(mbb[0][i] - 1e-9 * (big + 1024) <= e[i] <= mbb[1][i] + 1e-9 * (big + 1024) for i in range(dim)), "evalpt-outside-bbox",
+                      "sampled point %r of a translated copy lies outside its bounding box %r" % (e, mbb))
+        ctx.label("translated-copy")
     # bounding box of the control net contains every sampled point
     bb = obj.bbox
     ctx.check(len(bb) == 2 and len(bb[0]) == dim and len(bb[1]) == dim, "bbox-shape", "bbox = %r" % (bb,))
